@@ -375,6 +375,8 @@ func c03(p *model.Prog, r *report.Result) {
 	c03r7(p, r)
 	c03r8(p, r)
 	c03r9(p, r)
+	c03r10(p, r)
+	c03r11(p, r)
 }
 
 // c03r3 checks the notification pairing per protocol server.
